@@ -2,7 +2,7 @@
 
 #[cfg(not(feature = "shuttle"))]
 mod imp {
-    pub use std::sync::{Arc, Barrier, Condvar, Mutex};
+    pub use std::sync::Mutex;
     pub use std::thread::{JoinHandle, spawn};
     pub fn yield_now() {
         std::thread::yield_now()
@@ -14,7 +14,7 @@ mod imp {
 
 #[cfg(feature = "shuttle")]
 mod imp {
-    pub use shuttle::sync::{Arc, Barrier, Condvar, Mutex};
+    pub use shuttle::sync::Mutex;
     pub use shuttle::thread::{JoinHandle, spawn};
     pub fn yield_now() {
         shuttle::thread::yield_now()
